@@ -600,3 +600,6 @@ M('send-wait-ignores-stop', ['C08'], F, "        while not self.mq.send(frames, 
 M('main-loop-condition-inverted', ['C08'], F, "                            while not stop_evt.is_set():", "                            while stop_evt.is_set():", ['C08.R4'])
 M('seed5-C04-poll-time-before-wait', ['C04'], Z, r"(            ret = False\n)(\n            while True:  # this loop only exists.*?)                t         = time_ns\(\) // 1_000_000  # ns -> ms\n", r"\1            t   = time_ns() // 1_000_000\n\2", ['C04.R5'], regex=True)
 M('recv-D16-shape', ['C01'], Z, "        if min_recv_id > self.prev_id + 1:  # the caller moved on past", "        if False and min_recv_id > self.prev_id + 1:  # the caller moved on past", ['C01.R9'])
+M('vresize-D17-shape', ['C17'], VI, "newsize = (width, max(1, int(h * width / w))) if w > width else (w, h)", "newsize = (width, max(1, int(h * width / w)))", ['C17.R8'])
+M('vresize-general-uses-max', ['C17'], VI, "newsize = (max(1, int(w * (s := min(width / w, height / h)))), max(1, int(h * s)))", "newsize = (max(1, int(w * (s := max(width / w, height / h)))), max(1, int(h * s)))", ['C17.R8'])
+M('vmaxsize-aspect-inverted', ['C17'], VI, "            aspect = aspect != '+'", "            aspect = aspect == '+'", ['C17.R6', 'C17.R8'])
